@@ -1,6 +1,13 @@
 (*  C18 — Results are independent of the data container type; inputs are never modified.
    
-    What a model can carry (thin, by design): the facade's dispatch on the container kind.
+    What a model can carry: the facade's dispatch on the container kind, and - since the fourth round - the one conversion whose result
+    depends on the STATE of the bandit: contexts given as a pandas Series (Series.v, part of the extracted model and of the C18
+    correspondence: half of the generated queries and a third of the training calls arrive as Series).
+    PROVED (Series.v): every call with a Series either changes nothing (rejected) or IS the same call with a 2-D array; a query is read
+    as several rows of one feature exactly when the feature count the bandit remembers is 1 (first arm's coefficient vector for a linear
+    policy alone, width of the stored contexts under Radius / KNearest / LSH / Clusters, width of the fitted trees for TreeBandit), as one
+    row otherwise, and is rejected for a context-free bandit, which remembers none; a training call is read as a column when there are
+    several decisions (and then needs as many values as decisions), as one row for a single decision.
     PROVED: lists, C- and Fortran-ordered arrays and DataFrames holding the same matrix are converted to the same
     internal matrix; a Series is one column when fit receives more than one decision and one row otherwise, and at
     query time one column exactly when the bandit was trained on a single feature.  In the model every value is
@@ -9,7 +16,7 @@
     OBSERVED on every run: the same history through seven container kinds compared with the list run, byte
     snapshots of every caller object before and after each call, and an aliasing probe of the arm list. *)
 From Coq Require Import List ZArith Bool Arith QArith Qcanon Permutation.
-From MW Require Import Num Assoc AssocFacts Rng Par CF CFInv CFClean CFForget CFSpec Matrix Lin Warm WarmInv Nbr NbrFacts NbrIndep LshFacts Clu Tree CellFacts Mab FacadeCF FacadeArms MoreFacts NumLaws CFAlg Sim Extra QcInst.
+From MW Require Import Num Assoc AssocFacts Rng Par CF CFInv CFClean CFForget CFSpec Matrix Lin Warm WarmInv Nbr NbrFacts NbrIndep LshFacts Clu Tree CellFacts Mab FacadeCF FacadeArms MoreFacts NumLaws CFAlg Sim Extra QcInst OrderFacts ExpIrrel LinInv FacadeLin LpInv NbrInv CluTreeInv FacadeAll ToyFacts C09All C10All LinForget LinSim MatrixFacts GaussJordan LinSpec NbrIndepGen CluIndep C17Lin WarmIdem C14More LshScale TreeLeaf Rename PopSpec CopyFacts StatFacts CluBatch LinWarm Series.
 Import ListNotations.
 
 Theorem C18_conversion_independent_of_container_partial :
@@ -29,5 +36,36 @@ Theorem C18_series_disambiguation :
   (n <> 1%nat -> convert_predict TSeries n [] vals = convert_predict TList n [vals] []).
 Proof. exact @series_disambiguation. Qed.
 Print Assumptions C18_series_disambiguation.
+
+Theorem C18_series_call_is_an_array_call_or_changes_nothing :
+  forall (R A G : Type) (N : Num R) (aeqb : A -> A -> bool) (RG : RngOps R G) (m : (@mab R A G)) (o : (@sop R A)),
+  (exists o' : (@op R A), sstep N aeqb RG m o = step N aeqb RG m o') \/ sstep N aeqb RG m o = (m, ORejected).
+Proof. exact @series_call_is_an_array_call. Qed.
+Print Assumptions C18_series_call_is_an_array_call_or_changes_nothing.
+
+Theorem C18_series_query_is_read_by_the_trained_width :
+  forall (R A G : Type) (N : Num R) (aeqb : A -> A -> bool) (RG : RngOps R G) 
+    (m : (@mab R A G)) (vals : list R) (orc : (@oracle R A)) (nf : nat),
+  m_fitted m = true ->
+  mab_num_features aeqb m = Some nf ->
+  sstep N aeqb RG m (SPredictExpS vals orc) =
+  step N aeqb RG m (PredictExp (Some (if nf =? 1 then as_column vals else as_row vals)) orc) /\
+  sstep N aeqb RG m (SPredictS vals orc) =
+  step N aeqb RG m (Predict (Some (if nf =? 1 then as_column vals else as_row vals)) orc).
+Proof. exact @series_query_is_read_by_the_trained_width. Qed.
+Print Assumptions C18_series_query_is_read_by_the_trained_width.
+
+Theorem C18_series_training_is_read_by_the_number_of_decisions :
+  forall (R A G : Type) (N : Num R) (aeqb : A -> A -> bool) (RG : RngOps R G) 
+    (m : (@mab R A G)) (ds : list A) (rs vals : list R) (orc : (@oracle R A)),
+  ((1 < length ds)%nat ->
+   length vals = length ds ->
+   sstep N aeqb RG m (SFitS ds rs vals orc) = step N aeqb RG m (Fit ds rs (Some (as_column vals)) orc)) /\
+  (length ds = 1%nat ->
+   sstep N aeqb RG m (SFitS ds rs vals orc) = step N aeqb RG m (Fit ds rs (Some (as_row vals)) orc)) /\
+  (length ds <> 1%nat ->
+   length vals <> length ds -> sstep N aeqb RG m (SFitS ds rs vals orc) = (m, ORejected)).
+Proof. exact @series_training_is_read_by_the_number_of_decisions. Qed.
+Print Assumptions C18_series_training_is_read_by_the_number_of_decisions.
 
 
